@@ -18,8 +18,8 @@ func (exec *Executor) query(ctx context.Context, vals *valueList, node ast.Node,
 		// there are no errors at all.
 		vals := newList()
 		res, err := exec.executeItem(ctx, node, value, vals)
-		if res.failed() {
-			return res, err
+		if res.failed() || err != nil {
+			return statusFailed, err
 		}
 
 		if vals.isEmpty() {
